@@ -16,9 +16,12 @@ for name in $names; do
       *pv_to_tel.py) props="$props C16";;
       *events.py) props="$props C04";;
       *data_holders/base.py) props="$props C11 C10";;
-      *pv_event_simulator.py|*otel_to_pv/otel_to_pv.py|*pv_to_puml/pv_to_puml.py) props="$props C14";;
+      *pv_event_simulator.py) props="$props C14";;
+      *otel_to_pv/otel_to_pv.py) props="$props C14 C11 C15";;
+      *pv_to_puml/pv_to_puml.py) props="$props C14 C04";;
+      *data_ingestion.py) props="$props C04";;
       *sql_dataholder.py) props="$props C09 C10 C12";;
-      *ingest_otel_data.py) props="$props C10";;
+      *ingest_otel_data.py) props="$props C10 C11";;
     esac
   done
   props=$(echo $props | tr ' ' '\n' | sort -u | tr '\n' ' ')
